@@ -428,6 +428,25 @@ type c15E2EInput struct {
 	Color     bool `json:"color"`
 	// per-container logs
 	Logs []c15Stream `json:"logs"`
+	// ReadChunk > 0: the daemon's answer arrives in blocks of that many bytes, a Read never crosses a block boundary
+	// (what a buffered HTTP body does); 0: a Read returns whatever fits.
+	ReadChunk int `json:"read_chunk,omitempty"`
+	// Big > 0: instead of Logs, that many containers with 700 entries each (generated; output well beyond 64 KiB)
+	Big int `json:"big,omitempty"`
+}
+
+// c15BigLogs: n containers x 700 entries with interleaved timestamps and messages of varying length.
+func c15BigLogs(n int) []c15Stream {
+	base := int64(1700000000) * 1e9
+	var logs []c15Stream
+	for i := 0; i < n; i++ {
+		s := c15Stream{Container: fmt.Sprintf("c%d", i)}
+		for j := 0; j < 700; j++ {
+			s.Entries = append(s.Entries, c15Entry{TS: base + int64(j*n+i)*1000003, Msg: fmt.Sprintf("entry %04d of c%d %s", j, i, strings.Repeat("x", (j*7+i)%23))})
+		}
+		logs = append(logs, s)
+	}
+	return logs
 }
 
 func c15E2EExec(in c15E2EInput) (o c15Obs) {
@@ -436,6 +455,9 @@ func c15E2EExec(in c15E2EInput) (o c15Obs) {
 			o.Panic = fmt.Sprint(p)
 		}
 	}()
+	if in.Big > 0 {
+		in.Logs = c15BigLogs(in.Big)
+	}
 	var ctrs []fakedocker.Container
 	for i, l := range in.Logs {
 		var recs []fakedocker.Rec
@@ -444,7 +466,18 @@ func c15E2EExec(in c15E2EInput) (o c15Obs) {
 		}
 		ctrs = append(ctrs, fakedocker.Container{ID: fmt.Sprintf("id%d", i), Name: "/" + l.Container, Image: "img", State: "running", Log: fakedocker.Encode(recs)})
 	}
-	cmd := queryCmd(c16CLI{c: fakedocker.New(ctrs)})
+	fake := fakedocker.New(ctrs)
+	if in.ReadChunk > 0 {
+		chunk := in.ReadChunk
+		fake.Plan = func(_ int, pos, max int) (int, error) {
+			n := chunk - pos%chunk
+			if n > max {
+				n = max
+			}
+			return n, nil
+		}
+	}
+	cmd := queryCmd(c16CLI{c: fake})
 	var out bytes.Buffer
 	cmd.SetOut(&out)
 	cmd.SetErr(&bytes.Buffer{})
@@ -466,6 +499,9 @@ func c15E2ECheck(r *vkit.Run, in c15E2EInput) {
 	obs := c15E2EExec(in)
 	r.Eval()
 	logs := in.Logs
+	if in.Big > 0 {
+		logs = c15BigLogs(in.Big)
+	}
 	if in.Empty {
 		logs = nil
 	}
@@ -513,9 +549,18 @@ func c15E2ERun(r *vkit.Run, one func(fn func())) {
 				if n == 3 && mo%2 == 1 {
 					logs[1].Entries = nil // a container that logged nothing
 				}
-				for _, f := range forms {
+				for fi, f := range forms {
 					in := c15E2EInput{Args: f.args, Timestamp: f.ts, Container: f.ct, Color: f.co, Logs: logs}
 					one(func() { c15E2ECheck(r, in) })
+					// the same over a transport that hands the answer out in blocks (a frame header is cut at every offset
+					// sooner or later: block sizes 1, 3 and 13 against frames of 40-odd bytes)
+					if fi%4 == mo%4 {
+						for _, chunk := range []int{1, 3, 13} {
+							inc := in
+							inc.ReadChunk = chunk
+							one(func() { c15E2ECheck(r, inc) })
+						}
+					}
 				}
 			}
 		}
@@ -527,6 +572,18 @@ func c15E2ERun(r *vkit.Run, one func(fn func())) {
 		for _, logs := range [][]c15Stream{{dupA}, {dupA, dupB}} {
 			in := c15E2EInput{Args: f.args, Timestamp: f.ts, Container: f.ct, Color: f.co, Logs: logs}
 			one(func() { c15E2ECheck(r, in) })
+		}
+	}
+	// large results: 700 and 1400 entries (output beyond 32 KiB and 64 KiB), read whole and in blocks of 4096 and 1000 bytes
+	for fi, f := range forms {
+		if fi%5 != 0 {
+			continue
+		}
+		for _, big := range []int{1, 2} {
+			for _, chunk := range []int{0, 4096, 1000} {
+				in := c15E2EInput{Args: f.args, Timestamp: f.ts, Container: f.ct, Color: f.co, Big: big, ReadChunk: chunk}
+				one(func() { c15E2ECheck(r, in) })
+			}
 		}
 	}
 	// results without entries: no container at all, no container matching, every line filtered out
